@@ -179,13 +179,3 @@ example :
 end Examples
 
 end Ohsl.Props.C07
-
-#print axioms Ohsl.Props.C07.transpose_multiply
-#print axioms Ohsl.Props.C07.transpose_multiply_ok
-#print axioms Ohsl.Props.C07.transposeMultiply_entry
-#print axioms Ohsl.Props.C07.multiply_entry
-#print axioms Ohsl.Props.C07.transposeMultiply_eq_dense
-#print axioms Ohsl.Props.C07.transpose_multiply_eq_dense
-#print axioms Ohsl.Props.C07.adjoint_identity
-#print axioms Ohsl.Props.C07.demoQ_wf
-#print axioms Ohsl.Props.C07.demoQ_noDup
